@@ -751,7 +751,10 @@ std::ostream& chan_priority_t::print(std::ostream& os) const
         if (ch == '<')
             os << ' ';
         os << ch << ' ';
-        expr.print(os);
+        if (expr.empty())
+            os << "default";
+        else
+            expr.print(os);
     }
     return os;
 }
